@@ -116,7 +116,11 @@ pub mod futures {
 #[cfg(not(loom))]
 /// Synchronization primitive implementation.
 mod sync {
+    #[cfg(not(feature = "verif-hooks"))]
     pub(super) use core::sync::atomic;
+    // Verification hook: the same atomics, recording every operation on request.
+    #[cfg(feature = "verif-hooks")]
+    pub(super) use crate::__verif::atomic;
 
     pub(super) trait WithMut {
         type Output;
@@ -173,12 +177,151 @@ pub mod __verif {
     pub struct Snapshot {
         /// Atomic state words.
         pub words: std::vec::Vec<usize>,
+        /// Addresses under which the operations on those words are recorded (see `AtomicOp`).
+        pub addrs: std::vec::Vec<usize>,
         /// `(total listeners, is_notified)` of each event.
         pub events: std::vec::Vec<(usize, bool)>,
     }
 
     pub(crate) fn event(e: &event_listener::Event) -> (usize, bool) {
         (e.total_listeners(), e.is_notified())
+    }
+
+    /// One recorded atomic operation on a state word.
+    #[derive(Debug, Clone, PartialEq, Eq)]
+    pub struct AtomicOp {
+        /// Address of the word.
+        pub addr: usize,
+        /// `load`, `store`, `cas`, `casw`, `fadd`, `fsub`, `for`, `fand`.
+        pub op: &'static str,
+        /// Operands (unused ones are 0).
+        pub args: [usize; 2],
+        /// The `Ordering` arguments as written by the caller.
+        pub ord: std::string::String,
+        /// Value returned (for a CAS: `Ok`/`Err` payload), `None` for a store.
+        pub ret: Option<usize>,
+        /// For a CAS: whether it succeeded.
+        pub ok: bool,
+    }
+
+    std::thread_local! {
+        static ATOMIC_LOG: RefCell<Option<std::vec::Vec<AtomicOp>>> = RefCell::new(None);
+    }
+
+    /// Starts (`true`) or stops (`false`) recording atomic operations of the current thread.
+    pub fn record_atomics(on: bool) {
+        ATOMIC_LOG.with(|l| *l.borrow_mut() = if on { Some(std::vec::Vec::new()) } else { None });
+    }
+
+    /// Returns and clears what was recorded since the last call.
+    pub fn take_atomic_log() -> std::vec::Vec<AtomicOp> {
+        ATOMIC_LOG.with(|l| l.borrow_mut().as_mut().map(core::mem::take).unwrap_or_default())
+    }
+
+    /// Runs `f` (a snapshot) without recording its own loads.
+    pub(crate) fn unrecorded<R>(f: impl FnOnce() -> R) -> R {
+        let saved = ATOMIC_LOG.with(|l| l.borrow_mut().take());
+        let r = f();
+        ATOMIC_LOG.with(|l| *l.borrow_mut() = saved);
+        r
+    }
+
+    fn log(op: AtomicOp) {
+        ATOMIC_LOG.with(|l| {
+            if let Some(v) = l.borrow_mut().as_mut() {
+                v.push(op);
+            }
+        });
+    }
+
+    /// `core::sync::atomic` with an `AtomicUsize` that can record its operations. Behaviour is
+    /// that of the wrapped atomic; nothing is recorded unless `record_atomics(true)` was called.
+    pub mod atomic {
+        pub use core::sync::atomic::Ordering;
+        use core::sync::atomic::AtomicUsize as Inner;
+        use std::format;
+
+        /// See the module documentation.
+        #[derive(Debug)]
+        pub struct AtomicUsize(Inner);
+
+        impl AtomicUsize {
+            /// See `core::sync::atomic::AtomicUsize::new`.
+            pub const fn new(v: usize) -> Self {
+                AtomicUsize(Inner::new(v))
+            }
+
+            fn rec(&self, op: &'static str, args: [usize; 2], ord: std::string::String, ret: Option<usize>, ok: bool) {
+                super::log(super::AtomicOp {
+                    addr: self as *const _ as usize,
+                    op,
+                    args,
+                    ord,
+                    ret,
+                    ok,
+                });
+            }
+
+            /// See `core::sync::atomic::AtomicUsize::get_mut`.
+            pub fn get_mut(&mut self) -> &mut usize {
+                self.0.get_mut()
+            }
+
+            /// See `core::sync::atomic::AtomicUsize::load`.
+            pub fn load(&self, o: Ordering) -> usize {
+                let r = self.0.load(o);
+                self.rec("load", [0, 0], format!("{:?}", o), Some(r), true);
+                r
+            }
+
+            /// See `core::sync::atomic::AtomicUsize::store`.
+            pub fn store(&self, v: usize, o: Ordering) {
+                self.0.store(v, o);
+                self.rec("store", [v, 0], format!("{:?}", o), None, true);
+            }
+
+            /// See `core::sync::atomic::AtomicUsize::compare_exchange`.
+            pub fn compare_exchange(&self, a: usize, b: usize, s: Ordering, f: Ordering) -> Result<usize, usize> {
+                let r = self.0.compare_exchange(a, b, s, f);
+                self.rec("cas", [a, b], format!("{:?}/{:?}", s, f), Some(r.unwrap_or_else(|x| x)), r.is_ok());
+                r
+            }
+
+            /// See `core::sync::atomic::AtomicUsize::compare_exchange_weak`.
+            pub fn compare_exchange_weak(&self, a: usize, b: usize, s: Ordering, f: Ordering) -> Result<usize, usize> {
+                let r = self.0.compare_exchange_weak(a, b, s, f);
+                self.rec("casw", [a, b], format!("{:?}/{:?}", s, f), Some(r.unwrap_or_else(|x| x)), r.is_ok());
+                r
+            }
+
+            /// See `core::sync::atomic::AtomicUsize::fetch_add`.
+            pub fn fetch_add(&self, v: usize, o: Ordering) -> usize {
+                let r = self.0.fetch_add(v, o);
+                self.rec("fadd", [v, 0], format!("{:?}", o), Some(r), true);
+                r
+            }
+
+            /// See `core::sync::atomic::AtomicUsize::fetch_sub`.
+            pub fn fetch_sub(&self, v: usize, o: Ordering) -> usize {
+                let r = self.0.fetch_sub(v, o);
+                self.rec("fsub", [v, 0], format!("{:?}", o), Some(r), true);
+                r
+            }
+
+            /// See `core::sync::atomic::AtomicUsize::fetch_or`.
+            pub fn fetch_or(&self, v: usize, o: Ordering) -> usize {
+                let r = self.0.fetch_or(v, o);
+                self.rec("for", [v, 0], format!("{:?}", o), Some(r), true);
+                r
+            }
+
+            /// See `core::sync::atomic::AtomicUsize::fetch_and`.
+            pub fn fetch_and(&self, v: usize, o: Ordering) -> usize {
+                let r = self.0.fetch_and(v, o);
+                self.rec("fand", [v, 0], format!("{:?}", o), Some(r), true);
+                r
+            }
+        }
     }
 }
 
